@@ -193,6 +193,10 @@ class IntervalTier(textgrid_tier.TextgridTier):
             the modified version of the current tier
         """
         referenceTimestamps = referenceTier.timestamps
+        if len(referenceTimestamps) == 0 and len(self.entries) > 0:
+            raise errors.ArgumentError(
+                "dejitter() needs a reference tier with at least one timestamp"
+            )
 
         newEntries = []
         for start, stop, label in self.entries:
